@@ -13,22 +13,23 @@ from mc.lattice import Emb
 from mc.ref import bucketlist as BL
 
 E6 = ((0, 1, 0), (1, 0, 0), (1, 0, 1), (1, 1, 1), (0, 2, 0), (2, 0, 1))
+E4 = ((0, 1, 0), (1, 0, 0), (1, 0, 1), (0, 2, 0))
 E18 = tuple((s, d, l) for s in (0, 1, 2) for d in (0, 1, 2) for l in (0, 1))
 PASSIVE = ((0, 1), (1, 0), (2, 0), (0, 2), (1, 1), (3, 0), (0, 3), (2, 1))
 
 BOUNDS = {
-    "quick": {"configs": [{"alphabet": "E6", "K": 3}], "backends": list(S.BACKENDS), "passive_bucket_events": len(PASSIVE)},
-    "thorough": {"configs": [{"alphabet": "E6", "K": 4}, {"alphabet": "E18", "K": 3}], "backends": list(S.BACKENDS), "passive_bucket_events": len(PASSIVE)},
+    "quick": {"configs": [{"alphabet": "E4", "K": 3, "shaped": True}], "backends": list(S.BACKENDS), "passive_bucket_events": len(PASSIVE)},
+    "thorough": {"configs": [{"alphabet": "E6", "K": 3, "shaped": True}, {"alphabet": "E6", "K": 4, "shaped": False}, {"alphabet": "E18", "K": 3, "shaped": False}], "backends": list(S.BACKENDS), "passive_bucket_events": len(PASSIVE)},
 }
 RULE = (
     "BFS to fixpoint over all histories of {insert, bulk insert pair, bulk upsert, mixed bulk, replace(id), replace_last, delete(id), delete(never-existed)} "
-    "with event values from the alphabet and ids ranging over all live ids, at most K live events; states deduplicated on the implementation's raw table dump with rank-renamed ids; "
+    "with event values from the alphabet and ids ranging over all live ids, at most K live events; states deduplicated on the implementation's raw table dump with rank-renamed ids, refined (configs marked shaped) by the id-gap pattern and hidden allocator counter so that allocator-dependent behaviour is explored from every gap shape; "
     "a transition is non-trivial when its pre-state holds >=2 events tying in start or end instant, or a zero-length event, or the op addresses an id that is not the most recently inserted one"
 )
 ASSUMPTIONS = [
     "single insert of an event that already carries an id is not in the alphabet (statement lists bulk upsert only)",
     "return values of replace/delete are not compared; id reuse after deletion is allowed (statement forbids reuse for a different LIVE event)",
-    "rank-renaming of ids in the canonical form is sound because every allocator hands out an id above all live ids of its scope; cross-checked by expanding states from a second history with shifted id counters",
+    "rank-renaming of ids in the canonical form assumes behaviour depends on ids only through equality and order; shaped configs drop most of that assumption by keeping states with different id-gap patterns / hidden AUTOINCREMENT counter apart (a seeded len()-based allocator was missed without it)",
     "event values outside the alphabet (3 starts x 3 durations x 2 labels) are not covered here; C01/C13 cover value fidelity",
 ]
 
@@ -45,6 +46,10 @@ def _ev(e):
 
 def _emb_ev(E):
     return tuple(_ev(e) for e in E)
+
+
+def _canon(ds):
+    return S.canon_full(ds, _G["cfg"].get("shaped"))
 
 
 def setup(backend, wdir):
@@ -98,7 +103,7 @@ def expand_with(backend, wdir, hist, E, K, prefix=()):
     emb = _G["emb"]
     full = tuple(prefix) + tuple(hist)
     ds, m = replay(backend, wdir, full)
-    self_canon = S.canon_rows(ds)
+    self_canon = _canon(ds)
     passive0 = S.dump_bucket(ds, "passive")
     ops = BL.enabled_ops(m, E, K)
     succ = []
@@ -129,7 +134,7 @@ def expand_with(backend, wdir, hist, E, K, prefix=()):
                     size=len(full) * 100 + len(json.dumps(op)),
                 )
         else:
-            succ.append((S.canon_rows(ds), tuple(hist) + (op,)))
+            succ.append((_canon(ds), tuple(hist) + (op,)))
     if len(full) <= 1 and not prefix:
         u.sample({"backend": backend, "history": [list(o) for o in full], "ops_applied_from_here": len(ops)})
     r = u.result()
@@ -142,16 +147,6 @@ def _expand(hist):
     return expand_with(c["backend"], _G["ctx"].wdir(), hist, c["E"], c["K"])
 
 
-def _expand_shifted(hist):
-    """same state reached through a history that first burns an id (insert+delete):
-    successor canons must coincide with the direct expansion (soundness of rank renaming)"""
-    c = _G["cfg"]
-    a = expand_with(c["backend"], _G["ctx"].wdir(), hist, c["E"], c["K"])
-    b = expand_with(c["backend"], _G["ctx"].wdir(), hist, c["E"], c["K"], prefix=(("ins", c["E"][0]), ("del", 0)))
-    same = a["self"] == b["self"] and [k for k, _ in a["succ"]] == [k for k, _ in b["succ"]]
-    return (tuple(hist), same)
-
-
 def run(ctx):
     total = Agg()
     _G["ctx"] = ctx
@@ -160,23 +155,11 @@ def run(ctx):
     cfgs = BOUNDS[ctx.tier]["configs"]
     per = {}
     for cfg in cfgs:
-        E = _emb_ev(E6 if cfg["alphabet"] == "E6" else E18)
+        E = _emb_ev({"E4": E4, "E6": E6, "E18": E18}[cfg["alphabet"]])
         for backend in S.BACKENDS:
-            _G["cfg"] = {"backend": backend, "E": E, "K": cfg["K"]}
+            _G["cfg"] = {"backend": backend, "E": E, "K": cfg["K"], "shaped": cfg.get("shaped", False)}
             agg, seen = _bfs(ctx, f"{backend}/{cfg['alphabet']}/K{cfg['K']}")
             per[f"{backend}/{cfg['alphabet']}/K{cfg['K']}"] = {"states": agg.states, "transitions": agg.transitions, "max_depth": agg.max_depth, "violating_transitions": sum(v.get("count", 1) for v in agg.violations)}
-            # soundness cross-check of the canonical form
-            hs = sorted(seen.values(), key=lambda h: (len(h), h))
-            if not ctx.thorough:
-                hs = [h for h in hs if len(h) <= 2][:60]
-            else:
-                hs = hs[:400]
-            bad = [h for h, same in ctx.pmap(_expand_shifted, hs) if not same]
-            # a mismatch can be a harness problem or an id-dependent behaviour; only
-            # complain when the tree itself showed no violation on this backend
-            if bad and not agg.violations:
-                ctx.selfcheck(False, f"canonical form unsound on {backend}: history {bad[0]} and its id-shifted twin have different successors")
-            per[f"{backend}/{cfg['alphabet']}/K{cfg['K']}"]["canon_crosschecked_states"] = len(hs)
             _merge(total, agg)
     total.extra["per_backend"] = per
     for need in ("pre_end_tie", "pre_start_tie", "pre_zero_length", "addresses_older_id", "repl_max_end_tie", "repl_newest_start_tie", "op_repl", "op_del", "op_ups"):
@@ -213,6 +196,7 @@ def run_case(ctx, case):
     backend = case["backend"]
     hist = BL.tup(case["history"])
     op = BL.tup(case["op"])
+    _G["cfg"] = {}
     ds, m = replay(backend, ctx.wdir(), hist)
     before = S.dump_bucket(ds, "A")
     passive0 = S.dump_bucket(ds, "passive")
